@@ -191,8 +191,10 @@ class Engine:
                 self.results.append(rec)
                 raise VerifBug("vacuous context at %s" % name)
         self.results.append(rec)
-        # continue the path under the assumption that the goal holds (standard assert-then-assume)
-        self.assume(goal)
+        # continue the path under the assumption that the goal holds (standard assert-then-assume);
+        # a goal that failed is not assumed (it could make the rest of the path vacuous)
+        if st == "discharged":
+            self.assume(goal)
         return st == "discharged"
 
     def _smt2(self, negated_goal):
